@@ -252,6 +252,11 @@ func c03CheckGL(c c03GLCase) h.Result {
 	c03Expect(r, "Sum", New().Sum(vals), want)
 	c03Expect(r, "Sum(empty)", c03Copy(p).Sum(nil), ref.Identity())
 	c03Expect(r, "Sum(one)", New().Sum(vals[:1]), pr)
+	// the receiver may be one of the summands, as for every other operation of this API
+	x = c03Copy(p)
+	c03Expect(r, "Sum(alias)", x.Sum([]*curve.EdwardsPoint{x, q}), ref.Add(pr, qr))
+	x = c03Copy(q)
+	c03Expect(r, "Sum(alias)", x.Sum([]*curve.EdwardsPoint{p, x, p}), ref.Add(ref.Add(pr, qr), pr))
 
 	// Equal / IsIdentity against the reference encodings
 	r.Eval(4)
